@@ -52,6 +52,9 @@ def main():
         meta = json.load(open(os.path.join(d, "meta.json")))
         out = tempfile.mkdtemp(prefix="tetl-refac-")
         try:
+            if subprocess.run(["git", "-C", "/repo", "apply", "--check", os.path.join(d, "patch.diff")], capture_output=True).returncode != 0:
+                print("%-8s DOES-NOT-APPLY (re-base the patch onto /repo HEAD)" % name)
+                continue
             subprocess.run(["git", "-C", "/repo", "apply", os.path.join(d, "patch.diff")], check=True)
             todo = props
             with concurrent.futures.ThreadPoolExecutor(max_workers=8) as ex:
